@@ -36,8 +36,6 @@ BRACE_NUM_FEATURE = r"\{[^{}]*\d{19,}"
 BRACE_SEQ_FEATURE = r"\{[-+]?(\d+|[A-Za-z])\.\.[-+]?(\d+|[A-Za-z])\.\.[-+]?\d+\}"
 HEREDOC_FEATURE = r"<<"
 KNOWN_PANICS = [
-    ("array_literal_index_overflow", r"brush-core/src/variables\.rs$", r"add with overflow", r"\[\s*18446744073709551615\s*\]="),
-    ("tilde_dirstack_index_overflow", r"brush-parser/src/word\.rs$", r"ParseIntError", r"~[-+]?\d{20,}"),
     ("backquote_escape_span_boundary", r"brush-interactive/src/highlighting\.rs$", r"char boundary", r"`[^`]*\\"),
 ]
 HANG_EMPTY_TAG = re.compile(r"<<-?(''|\"\")?[ \t]+\Z")
@@ -507,7 +505,6 @@ OTHER_RECURSION = [
 
 
 RECURSION_KNOWN = [
-    ("xtrace_ps4_command_substitution_recursion", r"PS4=[^\n]*(\$\(|`)[\s\S]*set -x"),
 ]
 
 
@@ -826,10 +823,6 @@ def builtin_args_stage(ctx):
     for sc, r in zip(scripts, res):
         ctx.count(("ulimit", sc), bucket="builtin_umask_ulimit")
         ctx.impl_validated += 1
-        if r["how"] == "panic" and re.search(r"brush-builtins/src/ulimit\.rs:", r["loc"]) and "multiply with overflow" in r["msg"]:
-            ctx.known_or_violation("ulimit_value_scale_overflow", "ulimit panics at %s (%s)" % (r["loc"], r["msg"][:60]),
-                                   {"script": sc, "brush": {k: r[k] for k in ("how", "rc", "loc", "msg")}})
-            continue
         if r["how"] != "status" and nviol < 12:
             nviol += 1
             ctx.violation("umask/ulimit argument: brush does not end in a status (%s %s %s)" % (r["how"], r["loc"], r["msg"][:60]),
@@ -841,12 +834,6 @@ def builtin_args_stage(ctx):
 BUILTIN_KNOWN_PANICS = [
     # (clause, op regex, file regex, message regex, input feature regex)
     ("printf_star_width_i64_min", r"^RUNI?$", r"^dep:uucore-[^/]*/src/lib/features/format/spec\.rs$", r"negate with overflow", r"printf\b.*\*.*-9223372036854775808"),
-    ("read_timeout_overflows_instant", r"^RUNI?$", r"^std:(std|core)/src/time\.rs$", r"overflow when adding duration to instant|cannot convert float seconds to Duration", r"\bread\b.*-t"),
-    ("caller_frame_index_overflow", r"^RUNI?$", r"brush-builtins/src/caller\.rs$", r"add with overflow", r"\bcaller\b"),
-    ("mapfile_origin_overflow", r"^RUNI?$", r"brush-builtins/src/mapfile\.rs$", r"add with overflow", r"\bmapfile\b.*-O"),
-    ("ulimit_value_scale_overflow", r"^RUNI?$", r"brush-builtins/src/ulimit\.rs$", r"multiply with overflow", r"\bulimit\b"),
-    ("fc_negative_min", r"^RUNI?$", r"brush-builtins/src/fc\.rs$", r"negate with overflow", r"\bfc\b.*-9223372036854775808"),
-    ("completion_cursor_inside_multibyte_char", r"^COMPL2B$", r"brush-core/src/completion\.rs$", r"char boundary", r"[^\x00-\x7f]"),
 ]
 
 
